@@ -182,10 +182,14 @@ def writer_file(rnd, nptdms, tmp):
         with TdmsWriter(p, mode=mode, index_file=True, version=version) as w:
             for _ in range(rnd.randint(1, 3)):
                 objs = []
+                # (names, strings and integers whose bytes spell the segment tags: an index is the data file's lead-in and metadata with
+                # the FIRST four bytes of each segment replaced, nothing else)
                 if rnd.random() < 0.4:
-                    objs.append(RootObject({"r": rnd.randint(-5, 5)}))
+                    objs.append(RootObject({"r": rnd.choice([rnd.randint(-5, 5), np.int32(0x6d534454), np.int32(0x68534454)])}))
                 if rnd.random() < 0.4:
-                    objs.append(GroupObject("g", {"gp": "x" * rnd.randint(0, 3)}))
+                    objs.append(GroupObject("g", {"gp": rnd.choice(["x" * rnd.randint(0, 3), "TDSm", "a TDSm b TDSh"])}))
+                if rnd.random() < 0.15:
+                    objs.append(ChannelObject("g", "TDSm_level", np.arange(rnd.randint(0, 3)).astype("i2"), {"TDSm": "TDSm"}))
                 for ci in range(rnd.randint(1, 3)):
                     kind = rnd.choice(["i4", "f8", "str", "u1", "ts"])
                     n = rnd.randint(0, 4)
